@@ -249,6 +249,35 @@ def check_learn_observer(ck, aname, algo, env, mkpol):
         fin = [float(np.nanmax(np.abs(np.where(np.isfinite(a) & np.isfinite(b), a - b, 0.0)))) for a, b in zip(la, lb) if a.size]
         return bool(differ), {"parameter_leaves_that_differ_with_observers_attached": len(differ), "max_finite_difference": max(fin, default=0.0), "total_timesteps": T}
     ck.prove(f"observer.{aname}.learn_one_iteration", stubs.contracts(it0) + stubs.contracts(it1), goal, timeout=120, replay=rp_learn)
+    # different keys yield different runs: some key consumed by learn() (sampler or environment) differs whenever the caller's key differs.
+    # Idealised PRNG = free algebra: split / fold_in / key(seed) / wrap are injective, a key is determined by all of its data words together.
+    K = S0["key"][()]
+    K2 = z3.Const("other_learn_key", K.sort())
+    used = {}
+    for nm, oi, idx, operands, t in it0.uf_apps:
+        for x in operands:
+            if isinstance(x, z3.ExprRef) and x.sort() == K.sort():
+                used[x.get_id()] = x
+    dep = [t for t in used.values() if any(y.get_id() == K.get_id() for y in concrete.key_terms([t]))]
+    pairs = [(t, z3.substitute(t, (K, K2))) for t in dep]
+
+    def rp_two_keys(res):
+        """the real learn() with two different integer-seeded keys (as in the README) in a generic concrete environment: identical parameters = the key is (partly) ignored"""
+        from jaxsmt.uf import GenericWorld, world
+        pols = []
+        for seed in (1, 2):
+            jax.clear_caches()
+            try:
+                with world(GenericWorld(seed=5)):
+                    pols.append(jax.block_until_ready(algo.learn(env, pol, T, key=jr.key(seed), callback=callback_sets()["none"])))
+            finally:
+                jax.clear_caches()
+        la, lb = ([np.asarray(x, np.float64) for x in jax.tree_util.tree_leaves(p_) if eqx.is_inexact_array(x)] for p_ in pols)
+        same = all(np.array_equal(a, b, equal_nan=True) for a, b in zip(la, lb))
+        return same, {"function": f"{aname}.learn", "keys": ["jax.random.key(1)", "jax.random.key(2)"], "total_timesteps": T, "observation": "learn() returns bit-identical parameters for two different keys"}
+    ck.fact(f"key.learn_consumes_the_callers_key.{aname}", len(dep) >= 1, f"{len(used)} distinct key terms consumed by samplers / the environment in learn(); {len(dep)} derived from the caller's key")
+    if dep:
+        ck.prove(f"key.different_keys_different_draws.{aname}", concrete.key_injectivity(pairs), z3.Implies(K != K2, z3.Or([a != b for a, b in pairs])), replay=rp_two_keys)
 
 
 def check_cross_process(ck, names):
